@@ -16,7 +16,8 @@ EXTENDS Cells, TLC
 CONSTANTS Fields,        \* set of field records (MC_C09.tla)
           FaultFields,   \* subset of Fields whose files are damaged in every possible way
           ZeroId,        \* the id of 0.0 (extend_scalar fills with it)
-          HdrCuts        \* sampled cut positions inside the header (quarters of its lines)
+          HdrCuts,       \* sampled cut positions inside the header (quarters of its lines)
+          ExciseMax      \* largest number of whole values missing from a data block whose footer is kept
 
 VARIABLES fld, file, act, obs
 vars == <<fld, file, act, obs>>
@@ -93,14 +94,20 @@ Expected(fl) == ProdSeq(fl.hdr.nodes) * fl.hdr.valuedim
 (*   foot j   after the newline that ends the data and j footer lines (inside: in line j+1) *)
 (*   excise k NOT a truncation: the last k data values (inside: and a part of one more) are   *)
 (*            missing from the data block, the footer lines are all there (a reader that only   *)
-(*            counts bytes takes the footer for values)                                          *)
+(*            counts bytes takes the footer for values).  k = 0 only with a part of a value.    *)
+(*            The class is realised by EVERY number of missing bytes it contains, so also by    *)
+(*            the one where the footer fills the hole exactly and the file ends where a         *)
+(*            complete one ends.  Not asked: a hole so small that the white space after the     *)
+(*            block fills it -- the file then is a complete file of the layout without that     *)
+(*            white space (mumax3 writes none) whose last value ends in these bytes.            *)
 CutsOf(fl) ==
    {<<"hdr", j, b>> : j \in HdrCuts, b \in BOOLEAN} \cup {<<"begin", 0, TRUE>>}
    \cup (IF Binary(fl) THEN {<<"check", 0, FALSE>>, <<"check", 0, TRUE>>} ELSE {})
    \cup {<<"data", k, FALSE>> : k \in 0 .. Len(fl.data)}
    \cup {<<"data", k, TRUE>> : k \in 0 .. (Len(fl.data) - 1)}
    \cup {<<"foot", j, b>> : j \in 0 .. 1, b \in BOOLEAN}
-   \cup (IF Binary(fl) THEN {<<"excise", k, b>> : k \in 1 .. Min2(3, Len(fl.data) - 1), b \in BOOLEAN} ELSE {})
+   \cup (IF Binary(fl) THEN {<<"excise", k, b>> : k \in 0 .. Min2(ExciseMax, Len(fl.data) - 1), b \in BOOLEAN}
+                              \ {<<"excise", 0, FALSE>>} ELSE {})
 BeginIntact(fl)  == fl.cut[1] \notin {"hdr", "begin"}
 CompleteVals(fl) == CASE fl.cut[1] \in {"hdr", "begin", "check"} -> 0
                       [] fl.cut[1] = "data" -> fl.cut[2]
